@@ -12,6 +12,7 @@
      fr, bk       front() / back() as references (-1 = none)
      d, l         depth(node), level(node)     (l = -3: not called, see below)
      cp           child_position(listing parent, node) as an offset (-1: root / none)
+                  (per event also cpn / cpall: child_position for EVERY ordered pair of live nodes)
      tr           to_root traversal from the node, as references
    per slot: pre (pre_order traversal as references), prev (its labels, const variant),
    map (the DFS dump [v, nk, par] of tree::map(root, x -> 2x+1)), cpself
@@ -194,7 +195,26 @@ Reasons(f, ev) ==
         (/\ L[1].live /\ HasPath(logT, e.ret.p)
          /\ ev.olvl = LogLevel(Sub(logT, e.ret.p).v)
          /\ ev.ofmt = PrefixTextRec(LogNamesOf(logT, e.ret.p)))
+      \* child_position(P, C) for every ordered pair of live nodes (cpn: their references in the
+      \* order of the matrix cpall): the offset of C among P's children iff C's path is P's path
+      \* plus one index - identity by position, never by label - and nothing (-1) for the node
+      \* itself, grandchildren, siblings and nodes of other slots
+      paths == [s \in 1..NS |-> IF L[s].live THEN PathsOf(L[s].t) ELSE <<>>]
+      allRefs == LET RECURSIVE cat(_)
+                     cat(s) == IF s > NS THEN <<>> ELSE [i \in 1..Len(paths[s]) |-> Ref(s, i - 1)] \o cat(s + 1)
+                 IN cat(1)
+      cpAllOK ==
+        /\ ev.cpn = allRefs
+        /\ Len(ev.cpall) = Len(allRefs)
+        /\ \A i \in 1..Len(allRefs) : \A j \in 1..Len(allRefs) :
+             LET a == allRefs[i]
+                 b == allRefs[j]
+                 pa == paths[a \div 1000][(a % 1000) + 1]
+                 pb == paths[b \div 1000][(b % 1000) + 1]
+             IN ev.cpall[i][j] = (IF a \div 1000 = b \div 1000 /\ Len(pb) = Len(pa) + 1 /\ IsPrefix(pa, pb)
+                                  THEN ChildPosition(pb) ELSE -1)
   IN  Flag(structOK, "structure")
+      \cup Flag(cpAllOK, "child_position")
       \cup Flag(logGetOK, "log-get")
       \cup Flag(logObjOK, "log-object")
       \cup Flag(retOK, "returned-reference")
